@@ -314,6 +314,28 @@ def c_disambiguate(ctx, case):
     A, B, allowed = case
     A, B = [from_spec(t) for t in A], [from_spec(t) for t in B]
     filt = None if allowed is None else (lambda name: name in allowed)
+    # ... after a call that FAILED half-way and was caught: the caller's filter raises on the
+    # second (and on the first) clash it is asked about, through either entry point
+    class _Stop(Exception):
+        pass
+    for after in (1, 0):
+        asked = []
+
+        def raising_filter(name, after=after, asked=asked):
+            asked.append(name)
+            if len(asked) > after:
+                raise _Stop()
+            return True
+        for fn in (disambiguate_identifiers, disambiguate_and_fuse):
+            del asked[:]
+            try:
+                fn(A, B, raising_filter)
+            except _Stop:
+                ctx.count("failed_disambiguations_before_the_judged_one")
+            except RecursionError:
+                raise
+            except Exception:  # noqa: BLE001
+                pass
     ctx.case(None)
     ctx.count("disambiguations")
     try:
@@ -622,6 +644,7 @@ def workload(ctx):
                     ctx.run("C20.dot", (list(order), edges))
         ctx.set_exhaustive("all DAGs on <= 5 nodes, forward and reversed listing")
     ctx.floor("streams_with_shared_nodes", 50)
+    ctx.floor("failed_disambiguations_before_the_judged_one", 500)
     ctx.floor("streams_with_lookups", 1000)
     ctx.floor("long_chains", 60)
     ctx.floor("returned_stream_extended_in_place", 500)
